@@ -31,13 +31,22 @@ CGI_SHADOW = [b"Remote-Addr", b"Server-Name", b"Server-Port", b"Request-Method",
 
 def gen(W):
     sc = {}
-    m = reqgen.gen_message(W, 0, {"big_body": W.choice([2000, 9000, 30000])})
+    # (330000 with inbuf_overflow 270000: the body spills to a file after more than one 256 KiB copy block)
+    m = reqgen.gen_message(W, 0, {"big_body": W.choice([2000, 9000, 30000, 330000])})
     # extra field material
     extra = []
     for _ in range(W.draw(5)):
         nm = W.choice(CGI_SHADOW + [b"X-Foo", b"X_Foo", b"x-foo", b"X-Foo-Bar", b"X_Foo-Bar", b"Accept", b"ACCEPT", b"accept",
                                     b"X-Forwarded-For", b"X-Forwarded-Host", b"X-Forwarded-Proto", b"Forwarded"])
         extra.append((nm, W.choice(reqgen.FIELD_VALUES)))
+    if W.chance(0.15):
+        # an obs-folded field (continuation lines start with SP / HTAB): it is one field; with an underscore in
+        # its name the whole of it is dropped, continuation lines included
+        nm = W.choice([b"X-Fold", b"X_Note", b"X_Foo", b"X-Foo"])
+        extra.insert(W.draw(len(extra) + 1), (nm, W.choice([b"p\r\n q", b"x\r\n\t, admin", b"a\r\n b\r\n\tc"])))
+        # (line folding is obsolete: a server may refuse it; if it accepts, the environ must show the unfolded field)
+        m["mutation"] = "obs_fold"
+        m["verdict"] = ("EITHER", {"must_close": None, "dontcare": set()})
     m["fields"][1:1] = extra
     m["target"] = m["target"].replace(b"#c", b"")
     sc["msg"] = m
@@ -45,8 +54,10 @@ def gen(W):
     sc["url_scheme"] = W.choice(["http", "https"])
     sc["server_name"] = W.choice(["waitress.invalid", "example.org", "srv"])
     sc["unix"] = W.chance(0.25)
-    sc["inbuf_overflow"] = W.choice([524288, 20000, 8193, 100, 10])
+    sc["inbuf_overflow"] = W.choice([524288, 20000, 8193, 100, 10, 270000])
     sc["recv_bytes"] = W.choice([8192, 64, 5])
+    if len(m["body"]) > 100000:
+        sc["recv_bytes"] = 8192  # (tens of thousands of tiny reads would only exhaust the step bound)
     sc["cut"] = W.draw(500)
     # a second, plain request behind the first one: its environ must be its own
     sc["follower"] = W.chance(0.4)
@@ -86,7 +97,8 @@ def model(m, sc, peer):
                 path = path[len(p):]
         env["PATH_INFO"] = path
         env["QUERY_STRING"] = query.decode("latin-1")
-    fields = r1_request.cgi_fields([(k, v.strip(b" \t")) for k, v in m["rendered_fields"] if k is not None])
+    # (an obs-folded value is unfolded by dropping the CRLF; the blanks that start the continuation line stay)
+    fields = r1_request.cgi_fields([(k, v.replace(b"\r\n", b"").strip(b" \t")) for k, v in m["rendered_fields"] if k is not None])
     for k, v in fields.items():
         if k in ("CONTENT_LENGTH", "CONTENT_TYPE"):
             env[k] = v
@@ -142,7 +154,10 @@ def run_one(tapes, tier, scenario=None):
 
     peer = "localhost" if sc["unix"] else "10.1.2.3"
     feat = "%s/%s/%s" % (m["target_form"], m["framing"], "unix" if sc["unix"] else "tcp")
-    if not app.calls:
+    if not app.calls and m.get("mutation") == "obs_fold" and bytes(sim.conns.get(0).wire[:12]) == b"HTTP/1.0 400" or \
+            not app.calls and m.get("mutation") == "obs_fold" and bytes(sim.conns.get(0).wire[:12]) == b"HTTP/1.1 400":
+        pass  # refused: allowed for obsolete line folding
+    elif not app.calls:
         s = sim.conns.get(0)
         res.v("not_delivered", feat, "a canonical request did not reach the application: wire %r, request %r" % (bytes(s.wire[:120]) if s else None, raw[:200]))
     else:
